@@ -1,7 +1,20 @@
 package main
 
 import (
+	"bytes"
+	"context"
+	"io"
+
 	"github.com/ipfs/go-cid"
+	dagpb "github.com/ipld/go-codec-dagpb"
+	"github.com/ipld/go-ipld-prime/codec/dagjson"
+	"github.com/ipld/go-ipld-prime/datamodel"
+	"github.com/ipld/go-ipld-prime/fluent/qp"
+	"github.com/ipld/go-ipld-prime/linking"
+	cidlink "github.com/ipld/go-ipld-prime/linking/cid"
+	"github.com/ipld/go-ipld-prime/node/basicnode"
+	"github.com/ipld/go-ipld-prime/traversal"
+	"github.com/ipld/go-ipld-prime/traversal/selector"
 	mbase "github.com/multiformats/go-multibase"
 	mh "github.com/multiformats/go-multihash"
 )
@@ -304,6 +317,350 @@ func c19Archive(c *Ctx, r *RNG, a, b, d Arch) {
 	}
 }
 
+// ---- car get-dag ------------------------------------------------------------------------------------
+// refGetDagV2 is the reference for `car get-dag --version 2`: the walk the command's options promise --
+// trusted storage, dag-pb prototype for codec 0x70 (basicnode otherwise), a missing block skipped
+// (traversal.SkipMe) unless --strict, LinkVisitOnlyOnce exactly when no --selector was given,
+// Load(root) then WalkMatching reading large-bytes nodes to the end -- run directly on ipld-prime
+// over a logging link system backed by what the read-only blockstore answers.
+func refGetDagV2(store map[string][]byte, root cid.Cid, sel datamodel.Node, visitOnce, strict bool) (*walkLog, bool) {
+	cur := &walkLog{}
+	ls := loggingLinkSystem(store, &cur)
+	ls.TrustedStorage = true
+	inner := ls.StorageReadOpener
+	ls.StorageReadOpener = func(lc linking.LinkContext, l datamodel.Link) (io.Reader, error) {
+		r, err := inner(lc, l)
+		if err != nil {
+			if _, nf := err.(errNotFound); nf && !strict {
+				return nil, traversal.SkipMe{}
+			}
+			return nil, err
+		}
+		return r, nil
+	}
+	nsc := func(lnk datamodel.Link, _ linking.LinkContext) (datamodel.NodePrototype, error) {
+		if cl, ok := lnk.(cidlink.Link); ok && cl.Cid.Prefix().Codec == cid.DagProtobuf {
+			return dagpb.Type.PBNode, nil
+		}
+		return basicnode.Prototype.Any, nil
+	}
+	err := func() error {
+		lnk := cidlink.Link{Cid: root}
+		ns, _ := nsc(lnk, linking.LinkContext{})
+		nd, err := ls.Load(linking.LinkContext{}, lnk, ns)
+		if err != nil {
+			return err
+		}
+		s, err := selector.CompileSelector(sel)
+		if err != nil {
+			return err
+		}
+		prog := traversal.Progress{Cfg: &traversal.Config{LinkSystem: ls, LinkTargetNodePrototypeChooser: nsc, LinkVisitOnlyOnce: visitOnce}}
+		return prog.WalkMatching(nd, s, func(_ traversal.Progress, n datamodel.Node) error {
+			if lb, ok := n.(datamodel.LargeBytesNode); ok {
+				if rs, err := lb.AsLargeBytes(); err == nil {
+					if _, err := io.Copy(io.Discard, rs); err != nil {
+						return err
+					}
+				}
+			}
+			return nil
+		})
+	}()
+	return cur, err == nil
+}
+
+func traceVal(w *walkLog, ok bool) Val {
+	ls := VL{}
+	for _, l := range w.loads {
+		ls = append(ls, VL{VB(l.cid), VB(l.data)})
+	}
+	return VL{ls, vbool(ok)}
+}
+
+// c19GetDag: a generated DAG (dag-cbor / dag-pb / raw, shared subtrees, repeated links, the same
+// bytes under two codecs, identity leaves) stored in a CARv1 / CARv2 archive -- complete, or with
+// one block missing -- and `car get-dag` over it: --version 1|2, no selector / explore-all /
+// depth-limited / field paths / match-only, --strict, root given or taken from the archive.
+func c19GetDag(c *Ctx, r *RNG) {
+	depth := 2 + r.Intn(3)
+	g := genDag(r, depth, 1, false)
+	root := g.tops[0]
+	// one block may be missing from the archive (never one whose multihash another block shares:
+	// the read-only blockstore answers by multihash)
+	mhCount := map[string]int{}
+	for _, n := range g.nodes {
+		mhCount[string(n.c.Hash())]++
+	}
+	var missing *dnode
+	if r.Chance(25) {
+		n := pick(r, g.nodes)
+		if mhCount[string(n.c.Hash())] == 1 && n.c.Prefix().MhType != mh.IDENTITY && (n != root || r.Chance(20)) {
+			missing = n
+			c.Count("getdag:block-missing")
+		}
+	}
+	var blks []Blk
+	store := map[string][]byte{}
+	seen := map[string]bool{}
+	for _, i := range permIdx(r, len(g.nodes)) {
+		n := g.nodes[i]
+		if n.c.Prefix().MhType == mh.IDENTITY {
+			store[n.c.KeyString()] = n.data // ReadOnly.Get answers identity CIDs from the CID itself
+		}
+		if n == missing || seen[n.c.KeyString()] {
+			continue
+		}
+		seen[n.c.KeyString()] = true
+		if n.c.Prefix().MhType == mh.IDENTITY && r.Bool() {
+			continue
+		}
+		blks = append(blks, Blk{n.c, n.data})
+		store[n.c.KeyString()] = n.data
+	}
+	var a Arch
+	a.blks = blks
+	a.roots = []cid.Cid{root.c}
+	switch r.Intn(8) {
+	case 0:
+		a.roots = []cid.Cid{}
+	case 1:
+		a.roots = []cid.Cid{root.c, g.nodes[0].c}
+	}
+	a.payload = refPayload(a.roots, blks)
+	switch r.Intn(3) {
+	case 0:
+		a.ver, a.file = 1, a.payload
+	case 1:
+		a.ver, a.dpad = 2, uint64(pick(r, []int{0, 7}))
+		a.file = buildV2(a.payload, a.dpad, 0, 0, false)
+	default:
+		a.ver, a.dpad, a.ipad, a.idxKind = 2, uint64(pick(r, []int{0, 1})), uint64(pick(r, []int{0, 512})), uint64(pick(r, []int{2, 3}))
+		a.file = buildV2(a.payload, a.dpad, a.ipad, a.idxKind, false)
+	}
+	nInv := 3
+	for k := 0; k < nInv; k++ {
+		ver := uint64(1 + r.Intn(2))
+		if k == 0 {
+			ver = 2
+		} else if k == 1 {
+			ver = 1
+		}
+		strict := ver == 2 && r.Chance(30)
+		// selector
+		var selJSON Val = VT("none")
+		spec := selSpec{kind: 0}
+		hasSel := r.Chance(70)
+		if hasSel {
+			spec = genSel(r, root, depth)
+			if r.Chance(35) {
+				spec = selSpec{kind: 1, depth: uint64(1 + r.Intn(depth+2))} // depth-limited: path dependent
+				for try := 0; try < 6 && !visitOnceSensitive(store, root.c, spec); try++ {
+					spec = selSpec{kind: 1, depth: uint64(1 + r.Intn(2*depth+3))}
+				}
+				if visitOnceSensitive(store, root.c, spec) {
+					c.Count("getdag:visit-once-sensitive")
+				}
+			}
+			var buf bytes.Buffer
+			if err := dagjson.Encode(spec.node(), &buf); err != nil {
+				panic(err)
+			}
+			selJSON = VB(buf.Bytes())
+			c.Count("getdag:selector-kind-" + string(rune('0'+spec.kind)))
+		} else {
+			c.Count("getdag:no-selector")
+		}
+		// root argument
+		var rootArg Val = VB(root.c.Bytes())
+		effRoot, rootKnown := root.c, true
+		if r.Chance(25) {
+			rootArg = VT("none")
+			rootKnown = len(a.roots) == 1
+			c.Count("getdag:root-from-archive")
+		} else if r.Chance(15) && len(root.edges) > 0 {
+			ch := pick(r, root.edges).child
+			rootArg, effRoot = VB(ch.c.Bytes()), ch.c
+			if hasSel && (spec.kind == 2 || spec.kind == 4 || spec.kind == 5) {
+				spec = selSpec{kind: 0}
+				var buf bytes.Buffer
+				dagjson.Encode(spec.node(), &buf)
+				selJSON = VB(buf.Bytes())
+			}
+		}
+		// the oracle: what a reference walk with the command's configuration loads
+		var trace Val = VL{VL{}, VN(0)}
+		if rootKnown {
+			if ver == 2 {
+				w, ok := refGetDagV2(store, effRoot, spec.node(), !hasSel, strict)
+				trace = traceVal(w, ok)
+			} else {
+				tc := &travCase{roots: []cid.Cid{effRoot}, sels: []selSpec{spec}, opts: travOpts{dups: hasSel}}
+				tr := refWalkDags(store, tc).(VL)[0].(VL)
+				ls := VL{}
+				for _, l := range tr[0].(VL) {
+					ls = append(ls, VL{l.(VL)[0], l.(VL)[1]})
+				}
+				trace = VL{ls, tr[1]}
+			}
+		}
+		expect := VL{}
+		if rootKnown {
+			expect = VL{VB(effRoot.Bytes())}
+		}
+		var outOld Val = VT("none")
+		if r.Chance(20) {
+			outOld = VB(a.file)
+		}
+		nloads := len(trace.(VL)[0].(VL))
+		emitCli(c, "getdag", VL{VN(ver), rootArg, selJSON, vbool(strict), trace}, VL{VB(a.file), outOld}, expect, rootKnown && nloads >= 2)
+		c.Count("getdag:version-" + string(rune('0'+ver)))
+	}
+	if r.Chance(15) { // an unsupported version: refused before the output is touched
+		emitCli(c, "getdag", VL{VN(3), VB(root.c.Bytes()), VT("none"), VN(0), VL{VL{}, VN(0)}}, VL{VB(a.file), VT("none")}, VL{}, false)
+	}
+	_ = context.Background
+}
+
+// visitOnceSensitive: does the set of blocks the --version 2 walk loads depend on LinkVisitOnlyOnce?
+// (a block linked twice, reached first where the selector stops at it and later where its children
+// are still selected)
+func visitOnceSensitive(store map[string][]byte, root cid.Cid, spec selSpec) bool {
+	set := func(w *walkLog) map[string]bool {
+		m := map[string]bool{}
+		for _, l := range w.loads {
+			m[string(l.cid)] = true
+		}
+		return m
+	}
+	w1, _ := refGetDagV2(store, root, spec.node(), true, false)
+	w2, _ := refGetDagV2(store, root, spec.node(), false, false)
+	return len(set(w1)) != len(set(w2))
+}
+
+// cborLinks: a dag-cbor list of links, in the given order
+func cborLinks(r *RNG, level int, kids []*dnode) *dnode {
+	nd := &dnode{level: level}
+	n, err := qp.BuildList(basicnode.Prototype.Any, int64(len(kids)), func(la datamodel.ListAssembler) {
+		for i, k := range kids {
+			qp.ListEntry(la, qp.Link(cidlink.Link{Cid: k.c}))
+			nd.edges = append(nd.edges, dedge{[]string{string(rune('0' + i))}, k})
+		}
+	})
+	if err != nil {
+		panic(err)
+	}
+	nd.data = encCbor(n)
+	nd.c = travCid(r, cid.DagCBOR, nd.data)
+	return nd
+}
+
+// c19GetDagShared: a DAG whose root links first to a long path down to a block M and then directly to
+// M, with a subtree below M; depth-limited selectors chosen (when one exists) so that the deep visit of
+// M stops at M while the shallow one still selects M's children -- `car get-dag` must then load M twice.
+func c19GetDagShared(c *Ctx, r *RNG) {
+	hops := 1 + r.Intn(3)
+	height := 1 + r.Intn(3)
+	var nodes []*dnode
+	cur := genLeaf(r, false)
+	for cur.c.Prefix().MhType == mh.IDENTITY {
+		cur = genLeaf(r, false)
+	}
+	nodes = append(nodes, cur)
+	for i := 1; i <= height; i++ {
+		kids := []*dnode{cur}
+		if r.Chance(40) {
+			l := genLeaf(r, false)
+			nodes = append(nodes, l)
+			kids = append(kids, l)
+		}
+		cur = cborLinks(r, i, kids)
+		nodes = append(nodes, cur)
+	}
+	m := cur
+	deep := m
+	for i := 0; i < hops; i++ {
+		deep = cborLinks(r, height+1+i, []*dnode{deep})
+		nodes = append(nodes, deep)
+	}
+	kids := []*dnode{deep, m}
+	if r.Chance(25) {
+		kids = []*dnode{m, deep} // shallow first: visit-once is harmless here
+	}
+	root := cborLinks(r, height+hops+1, kids)
+	nodes = append(nodes, root)
+	store := map[string][]byte{}
+	var blks []Blk
+	seen := map[string]bool{}
+	for _, i := range permIdx(r, len(nodes)) {
+		n := nodes[i]
+		if n.c.Prefix().MhType == mh.IDENTITY {
+			store[n.c.KeyString()] = n.data
+			continue
+		}
+		if seen[n.c.KeyString()] {
+			continue
+		}
+		seen[n.c.KeyString()] = true
+		blks = append(blks, Blk{n.c, n.data})
+		store[n.c.KeyString()] = n.data
+	}
+	var a Arch
+	a.blks, a.roots = blks, []cid.Cid{root.c}
+	a.payload = refPayload(a.roots, blks)
+	a.ver, a.file = 1, a.payload
+	if r.Bool() {
+		a.ver = 2
+		a.file = buildV2(a.payload, 0, 0, uint64(pick(r, []int{0, 3})), false)
+	}
+	var cand []selSpec
+	for d := 1; d <= 2*(hops+height)+4; d++ {
+		sp := selSpec{kind: 1, depth: uint64(d)}
+		if visitOnceSensitive(store, root.c, sp) {
+			cand = append(cand, sp)
+		}
+	}
+	spec := selSpec{kind: 1, depth: uint64(1 + r.Intn(2*(hops+height)+4))}
+	if len(cand) > 0 {
+		spec = pick(r, cand)
+		c.Count("getdag:visit-once-sensitive")
+	}
+	var buf bytes.Buffer
+	if err := dagjson.Encode(spec.node(), &buf); err != nil {
+		panic(err)
+	}
+	for _, ver := range []uint64{2, 1} {
+		var trace Val
+		if ver == 2 {
+			w, ok := refGetDagV2(store, root.c, spec.node(), false, false)
+			trace = traceVal(w, ok)
+		} else {
+			tc := &travCase{roots: []cid.Cid{root.c}, sels: []selSpec{spec}, opts: travOpts{dups: true}}
+			tr := refWalkDags(store, tc).(VL)[0].(VL)
+			ls := VL{}
+			for _, l := range tr[0].(VL) {
+				ls = append(ls, VL{l.(VL)[0], l.(VL)[1]})
+			}
+			trace = VL{ls, tr[1]}
+		}
+		emitCli(c, "getdag", VL{VN(ver), VB(root.c.Bytes()), VB(buf.Bytes()), VN(0), trace}, VL{VB(a.file), VT("none")}, VL{VB(root.c.Bytes())}, true)
+		c.Count("getdag:version-" + string(rune('0'+ver)))
+		c.Count("getdag:shared-block-two-depths")
+	}
+}
+
+func permIdx(r *RNG, n int) []int {
+	p := make([]int, n)
+	for i := range p {
+		p[i] = i
+	}
+	for i := n - 1; i > 0; i-- {
+		j := r.Intn(i + 1)
+		p[i], p[j] = p[j], p[i]
+	}
+	return p
+}
+
 // malformed stream: only model = implementation is compared (expect is empty)
 func c19Malformed(c *Ctx, r *RNG, a Arch) {
 	if len(a.blks) == 0 {
@@ -408,6 +765,55 @@ func c19Examples(c *Ctx) {
 	out0 := buildV2(v1.payload, 0, 0, 0, false)
 	emitCli(c, "filter", VL{VL{VB(b2.Cid.Bytes()), VB(bi.Cid.Bytes())}, VN(0), VN(2), VN(1)}, VL{VB(v2.file), VB(out0)}, VL{v2.desc(), v1.desc()}, true)
 	c.Count("examples:theorem-instance")
+	c19ExampleDag(c)
+}
+
+// c19ExampleDag: R = [X, M], X = [M], M = [L] (dag-cbor lists of links, sha2-256) with the depth-limited
+// selector of depth 3: the walk reaches M first through X, where the limit stops it, and then directly,
+// from where L is still selected -- both versions of `car get-dag` must deliver R X M L.
+func c19ExampleDag(c *Ctx) {
+	mk := func(n datamodel.Node) *dnode {
+		d := encCbor(n)
+		return &dnode{c: mkCid(1, cid.DagCBOR, mh.SHA2_256, -1, d), data: d}
+	}
+	list := func(kids ...*dnode) *dnode {
+		n, err := qp.BuildList(basicnode.Prototype.Any, int64(len(kids)), func(la datamodel.ListAssembler) {
+			for _, k := range kids {
+				qp.ListEntry(la, qp.Link(cidlink.Link{Cid: k.c}))
+			}
+		})
+		if err != nil {
+			panic(err)
+		}
+		return mk(n)
+	}
+	leaf := mk(basicnode.NewString("leaf"))
+	mid := list(leaf)
+	deep := list(mid)
+	root := list(deep, mid)
+	store := map[string][]byte{}
+	var blks []Blk
+	for _, n := range []*dnode{root, deep, mid, leaf} {
+		blks = append(blks, Blk{n.c, n.data})
+		store[n.c.KeyString()] = n.data
+	}
+	payload := refPayload([]cid.Cid{root.c}, blks)
+	file := buildV2(payload, 0, 0, 3, false)
+	spec := selSpec{kind: 1, depth: 3}
+	var buf bytes.Buffer
+	if err := dagjson.Encode(spec.node(), &buf); err != nil {
+		panic(err)
+	}
+	w, ok := refGetDagV2(store, root.c, spec.node(), false, false)
+	emitCli(c, "getdag", VL{VN(2), VT("none"), VB(buf.Bytes()), VN(0), traceVal(w, ok)}, VL{VB(file), VT("none")}, VL{VB(root.c.Bytes())}, true)
+	tc := &travCase{roots: []cid.Cid{root.c}, sels: []selSpec{spec}, opts: travOpts{dups: true}}
+	tr := refWalkDags(store, tc).(VL)[0].(VL)
+	ls := VL{}
+	for _, l := range tr[0].(VL) {
+		ls = append(ls, VL{l.(VL)[0], l.(VL)[1]})
+	}
+	emitCli(c, "getdag", VL{VN(1), VB(root.c.Bytes()), VB(buf.Bytes()), VN(0), VL{ls, tr[1]}}, VL{VB(file), VT("none")}, VL{VB(root.c.Bytes())}, true)
+	c.Count("examples:get-dag-shared-block")
 }
 
 func init() {
@@ -425,6 +831,12 @@ func init() {
 			if i%5 == 0 {
 				c19Malformed(c, r, a)
 			}
+		}
+		for i := 0; i < 12*c.Scale; i++ {
+			c19GetDag(c, c.R.Fork())
+		}
+		for i := 0; i < 5*c.Scale; i++ {
+			c19GetDagShared(c, c.R.Fork())
 		}
 		if c.Thorough {
 			m := 12
